@@ -70,49 +70,50 @@ func checkC14(c *Ctx) {
 			continue
 		}
 		tname := tn.Obj().Name()
-		// the value hashed: argument of the Sum256 / hash call feeding the return
-		var hashed ssa.Value
-		ana.Instrs(h, func(in ssa.Instruction) {
-			if call, ok := in.(*ssa.Call); ok {
-				if d, _ := ana.Describe(&call.Call); (d.Pkg == "crypto/sha256" && d.Name == "Sum256") || d.Name == "Keccak256" || d.Name == "Keccak256Hash" {
-					hashed = call.Call.Args[0]
+		// the value hashed: argument of the Sum256 / hash call feeding the return; the digest may be computed by
+		// a helper of the same package that is handed the bytes (or the parts)
+		findHash := func(fn *ssa.Function) ssa.Value {
+			var out ssa.Value
+			ana.Instrs(fn, func(in ssa.Instruction) {
+				if call, ok := in.(*ssa.Call); ok {
+					if d, _ := ana.Describe(&call.Call); (d.Pkg == "crypto/sha256" && d.Name == "Sum256") || d.Name == "Keccak256" || d.Name == "Keccak256Hash" {
+						out = call.Call.Args[0]
+					}
 				}
-			}
-		})
+			})
+			return out
+		}
+		hashed := findHash(h)
+		var hashSite *ssa.Call
 		if hashed == nil {
-			// the digest may be computed by a helper that is handed the bytes: the hashed value is then the actual
-			// bound to the helper parameter that reaches the hash call
+			// the helper whose result Hash() returns
 			ana.Instrs(h, func(in ssa.Instruction) {
-				call, ok := in.(*ssa.Call)
-				if !ok || hashed != nil {
+				ret, ok := in.(*ssa.Return)
+				if !ok || len(ret.Results) != 1 || hashed != nil {
+					return
+				}
+				v := ret.Results[0]
+				for i := 0; i < 6; i++ {
+					switch x := v.(type) {
+					case *ssa.ChangeType:
+						v = x.X
+					case *ssa.Convert:
+						v = x.X
+					case *ssa.Slice:
+						v = x.X
+					}
+				}
+				call, ok := v.(*ssa.Call)
+				if !ok {
 					return
 				}
 				g := call.Call.StaticCallee()
 				if g == nil || g.Blocks == nil || g.Pkg != h.Pkg {
 					return
 				}
-				ana.Instrs(g, func(in2 ssa.Instruction) {
-					c2, ok := in2.(*ssa.Call)
-					if !ok {
-						return
-					}
-					if d, _ := ana.Describe(&c2.Call); (d.Pkg == "crypto/sha256" && d.Name == "Sum256") || d.Name == "Keccak256" || d.Name == "Keccak256Hash" {
-						v := c2.Call.Args[0]
-						for i := 0; i < 4; i++ {
-							switch x := v.(type) {
-							case *ssa.ChangeType:
-								v = x.X
-							case *ssa.Convert:
-								v = x.X
-							}
-						}
-						for i, par := range g.Params {
-							if ssa.Value(par) == v && i < len(call.Call.Args) {
-								hashed = call.Call.Args[i]
-							}
-						}
-					}
-				})
+				if hv := findHash(g); hv != nil {
+					hashed, hashSite = hv, call
+				}
 			})
 		}
 		if hashed == nil {
@@ -120,7 +121,8 @@ func checkC14(c *Ctx) {
 			continue
 		}
 		opt := ana.PVOpt{Through: map[string][]int{"ExternalSigners.Hash": {0}}}
-		l := p.Leaves(hashed, opt)
+		pieces := p.PiecesAt(hashed, hashSite)
+		l := c.piecesLeaves(pieces, opt)
 		for _, fld := range eventFields(tn) {
 			key := tname + "." + fld
 			if fld == "ReturnData" && !returnDataRead {
@@ -133,7 +135,7 @@ func checkC14(c *Ctx) {
 				r.Bad("C14.coverage", key, p.Pos(h.Pos()), sprintf("%s does not enter Hash(): two reported events that differ only in %s get the same claim identifier and are tallied together (the body stored with the first vote wins)", key, fld))
 			}
 		}
-		c.checkHashInjective(h, tname, hashed)
+		c.checkHashInjective(h, tname, hashed, pieces)
 	}
 
 	// no two event types share a byte layout (8-byte / 32-byte / variable parts in the same order)
@@ -156,17 +158,16 @@ func checkC14(c *Ctx) {
 	if mh := p.Func("mhub2/types.ExternalSigners.Hash"); mh != nil {
 		var written []*ana.Prov
 		full := false
+		// what is hashed: the values written to the buffer / appended to the input, member by member
 		ana.Instrs(mh, func(in ssa.Instruction) {
 			call, ok := in.(*ssa.Call)
 			if !ok {
 				return
 			}
-			d, _ := ana.Describe(&call.Call)
-			if d.Recv == "Buffer" && d.Name == "Write" && len(call.Call.Args) == 2 {
-				written = append(written, p.Leaves(call.Call.Args[1], ana.PVOpt{}))
-			}
-			if ia, ok := in.(*ssa.IndexAddr); ok && fullRange(ia) {
-				full = true
+			if d, _ := ana.Describe(&call.Call); d.Pkg == "crypto/sha256" && d.Name == "Sum256" {
+				for _, pc := range p.Pieces(call.Call.Args[0], nil) {
+					written = append(written, p.Leaves(pc.Val, ana.PVOpt{}))
+				}
 			}
 		})
 		ana.Instrs(mh, func(in ssa.Instruction) {
@@ -237,72 +238,30 @@ func checkC14(c *Ctx) {
 }
 
 // checkHashInjective classifies the concatenated parts.
-func (c *Ctx) checkHashInjective(h *ssa.Function, tname string, hashed ssa.Value) {
+func (c *Ctx) checkHashInjective(h *ssa.Function, tname string, hashed ssa.Value, pieces []ana.Piece) {
 	p, r := c.P, c.R
-	// find the bytes.Join list
+	// the operands of the concatenation that is hashed
 	var parts []ssa.Value
-	var walk func(v ssa.Value, depth int)
-	walk = func(v ssa.Value, depth int) {
-		if depth > 6 || len(parts) > 0 {
-			return
-		}
-		switch x := v.(type) {
-		case *ssa.Call:
-			d, _ := ana.Describe(&x.Call)
-			if d.Pkg == "bytes" && d.Name == "Join" {
-				if sl, ok := x.Call.Args[0].(*ssa.Slice); ok {
-					if a, ok := sl.X.(*ssa.Alloc); ok {
-						type iv struct {
-							i int64
-							v ssa.Value
-						}
-						var ivs []iv
-						for _, ref := range *a.Referrers() {
-							if ia, ok := ref.(*ssa.IndexAddr); ok {
-								if k, ok := ia.Index.(*ssa.Const); ok {
-									for _, rr := range *ia.Referrers() {
-										if st, ok := rr.(*ssa.Store); ok {
-											idx, _ := k.Int64(), 0
-											ivs = append(ivs, iv{idx, st.Val})
-										}
-									}
-								}
-							}
-						}
-						sort.Slice(ivs, func(i, j int) bool { return ivs[i].i < ivs[j].i })
-						for _, e := range ivs {
-							parts = append(parts, e.v)
-						}
-					}
-				}
-				return
-			}
-			for _, a := range x.Call.Args {
-				walk(a, depth+1)
-			}
-		case *ssa.Convert:
-			walk(x.X, depth+1)
-		case *ssa.ChangeType:
-			walk(x.X, depth+1)
-		case *ssa.Slice:
-			walk(x.X, depth+1)
+	if !(len(pieces) == 1 && pieces[0].Val == hashed) {
+		for _, pc := range pieces {
+			parts = append(parts, pc.Val)
 		}
 	}
-	walk(hashed, 0)
 	if len(parts) == 0 {
-		r.Undecided("C14.injective", tname, p.Pos(h.Pos()), "the hashed value is not a bytes.Join of parts")
+		r.Undecided("C14.injective", tname, p.Pos(h.Pos()), "the hashed value is not a concatenation of parts (bytes.Join, append chain, buffer writes)")
 		return
 	}
 	nVar := 0
 	var varNames []string
 	for _, pt := range parts {
-		l := p.Leaves(pt, ana.PVOpt{})
+		// the members hash is a fixed-width part with its own coverage rule: it is not looked into here
+		l := p.Leaves(pt, ana.PVOpt{Opaque: func(d ana.CalleeDesc) bool { return d.Recv == "ExternalSigners" && d.Name == "Hash" }})
 		fields := strings.Join(l.Fields(), ",")
 		ex := p.Expr(pt, 0)
 		// narrowing steps on the way to the bytes: distinct field values collapse
 		for _, op := range l.OpList() {
 			switch op {
-			case "HexToAddress", "HexToHash", "BytesToAddress", "ToLower", "ToUpper", "TrimSpace", "TrimPrefix", "FromHex":
+			case "HexToAddress", "HexToHash", "BytesToAddress", "ToLower", "ToUpper", "TrimSpace", "TrimPrefix", "FromHex", "TrimLeft", "TrimRight", "TrimSuffix", "Trim", "ReplaceAll", "Replace", "ToTitle":
 				for _, f := range l.Fields() {
 					r.Bad("C14.injective", "normalised:"+f, p.Pos(h.Pos()), f+" is normalised by "+op+" before it is hashed while the handler uses the field as reported: reports that spell it differently (and so take different effect) get one claim identifier")
 				}
@@ -362,8 +321,27 @@ func (c *Ctx) checkHashInjective(h *ssa.Function, tname string, hashed ssa.Value
 		c.hashLayouts = map[string][]string{}
 	}
 	c.hashLayouts[strings.Join(lay, "|")] = append(c.hashLayouts[strings.Join(lay, "|")], tname)
+	// how each variable-length part is spelled (text or binary): part of the finding's identity, a change of
+	// an encoding is a different ambiguity than the one recorded for today's tree
+	var enc []string
+	for _, pt := range parts {
+		ex := p.Expr(pt, 0)
+		if strings.HasPrefix(ex, "Uint64ToBigEndian(") || strings.HasPrefix(ex, "ExternalSigners.Hash(") {
+			continue
+		}
+		fs := p.Leaves(pt, ana.PVOpt{Opaque: func(d ana.CalleeDesc) bool { return d.Recv == "ExternalSigners" && d.Name == "Hash" }}).Fields()
+		nm := "?"
+		if len(fs) > 0 {
+			nm = fs[0][strings.LastIndex(fs[0], ".")+1:]
+		}
+		enc = append(enc, nm+"/"+encClass(p, pt, 0))
+	}
+	undKey := "undelimited:" + tname
+	if base, ok := baselineEncodings[tname]; ok && strings.Join(enc, ",") != base {
+		undKey += ":" + strings.Join(enc, ",")
+	}
 	if nVar >= 2 {
-		r.Bad("C14.injective", "undelimited:"+tname, p.Pos(h.Pos()), sprintf("%d variable-length parts (%s) are concatenated without length delimiters: events whose variable-length fields are shifted across a field boundary (Minter coin \"1\"+amount 0x39.. vs coin \"19\"+amount ..) hash alike", nVar, strings.Join(varNames, " | ")))
+		r.Bad("C14.injective", undKey, p.Pos(h.Pos()), sprintf("%d variable-length parts (%s) are concatenated without length delimiters: events whose variable-length fields are shifted across a field boundary (Minter coin \"1\"+amount 0x39.. vs coin \"19\"+amount ..) hash alike", nVar, strings.Join(varNames, " | ")))
 	} else {
 		r.Ok("C14.injective", "undelimited:"+tname, p.Pos(h.Pos()), sprintf("%d parts, at most one of variable length", len(parts)))
 	}
@@ -467,4 +445,83 @@ func (c *Ctx) validateRejectsNegative(hash *ssa.Function, field string) bool {
 		}
 	})
 	return ok && n > 0
+}
+
+// piecesLeaves is the union of the provenance of the pieces, each evaluated in the frame it belongs to.
+func (c *Ctx) piecesLeaves(pieces []ana.Piece, opt ana.PVOpt) *ana.Prov {
+	var out *ana.Prov
+	for _, pc := range pieces {
+		var l *ana.Prov
+		var chain []ssa.CallInstruction
+		for e := pc.Env; e != nil; e = e.Parent {
+			if e.Site != nil {
+				chain = append([]ssa.CallInstruction{e.Site}, chain...)
+			}
+		}
+		if len(chain) > 0 && pc.Val != nil && pc.Val.Parent() != nil && chain[len(chain)-1].Common().StaticCallee() == pc.Val.Parent() {
+			l = c.P.LeavesChain(pc.Val, chain, opt)
+		} else {
+			l = c.P.Leaves(pc.Val, opt)
+		}
+		if out == nil {
+			out = l
+		} else {
+			out.Merge(l)
+		}
+	}
+	if out == nil {
+		out = c.P.Leaves(nil, opt)
+	}
+	return out
+}
+
+// baselineEncodings: the spelling of the variable-length hash parts for which the "undelimited" findings of
+// the pinned tree were recorded (known_findings.json); another spelling gets its own key.
+var baselineEncodings = map[string]string{
+	"SendToHubEvent":       "ExternalCoinId/text,Amount/bin,Sender/bin,CosmosReceiver/bin",
+	"TransferToChainEvent": "ExternalCoinId/text,Amount/bin,Sender/bin,ExternalReceiver/text,ReceiverChainId/text",
+}
+
+// encClass: "text" if the bytes are the characters of a string / a textual marshalling, else "bin".
+func encClass(p *ana.Prog, v ssa.Value, depth int) string {
+	if depth > 6 || v == nil {
+		return "bin"
+	}
+	switch x := v.(type) {
+	case *ssa.Convert:
+		if b, ok := x.X.Type().Underlying().(*types.Basic); ok && b.Info()&types.IsString != 0 {
+			return "text"
+		}
+		return encClass(p, x.X, depth+1)
+	case *ssa.ChangeType:
+		return encClass(p, x.X, depth+1)
+	case *ssa.Slice:
+		return encClass(p, x.X, depth+1)
+	case *ssa.Extract:
+		return encClass(p, x.Tuple, depth+1)
+	case *ssa.Phi:
+		for _, e := range x.Edges {
+			if encClass(p, e, depth+1) == "text" {
+				return "text"
+			}
+		}
+	case *ssa.Call:
+		d, _ := ana.Describe(&x.Call)
+		switch d.Name {
+		case "Marshal", "MarshalJSON", "MarshalText", "MarshalAmino", "String", "Sprintf", "Sprint", "Itoa", "FormatInt", "FormatUint", "AppendInt", "AppendUint", "Text":
+			return "text"
+		}
+		if fn := x.Call.StaticCallee(); fn != nil && p.IsModule(fn) && fn.Blocks != nil {
+			out := "bin"
+			ana.Instrs(fn, func(in ssa.Instruction) {
+				if ret, ok := in.(*ssa.Return); ok && len(ret.Results) >= 1 {
+					if encClass(p, ret.Results[0], depth+1) == "text" {
+						out = "text"
+					}
+				}
+			})
+			return out
+		}
+	}
+	return "bin"
 }
